@@ -31,13 +31,15 @@ def read_file(path):
 
 
 class _Crash:
-    def __init__(self, point):
+    def __init__(self, point, phase=0):
         self.point = point
         self.count = {}
+        self.phase = phase      # the point is armed only in this phase (0: start-up, 1: after a reboot)
+        self.now = 0
 
     def at(self, name):
         """name like 'apdu:unlock' ; plan point 'apdu:unlock#2' = second occurrence."""
-        if self.point is None:
+        if self.point is None or self.now != self.phase:
             return
         self.count[name] = self.count.get(name, 0) + 1
         if self.point == name or self.point == "%s#%d" % (name, self.count[name]):
@@ -97,7 +99,7 @@ class _Life:
         self.plan = plan
         self.wfd = wfd
         self.fault = plan.get("fs_fault")
-        self.crash = _Crash(plan.get("crash"))
+        self.crash = _Crash(plan.get("crash"), plan.get("crash_phase", 0))
         self.dev = None
 
     def emit(self, ev):
@@ -125,7 +127,8 @@ class _Life:
         plat = p["plat"]
         from comm.platform import Platform
         Platform.set(Platform.LEDGER if plat == "ledger" else Platform.SGX)
-        d = SimDevice(platform="sgx" if plat == "sgx" else "ledger", mode=MODE_BOOT, seed=p["seed"])
+        d = SimDevice(platform="sgx" if plat == "sgx" else "ledger",
+                      mode=MODE_SIGNER if p.get("start_mode") == "signer" else MODE_BOOT, seed=p["seed"])
         d.pin = bytes.fromhex(p["devpin"])
         d.retries = p.get("retries", 3)
         d.newpin_answer = p["newpin_answer"]
@@ -182,6 +185,35 @@ class _Life:
         try:
             proto.initialize_device()
             outcome = "serve"
+        except BaseException:   # noqa
+            outcome = "stop"
+        self.crash.at("ending")
+        self.emit({"k": "end", "outcome": outcome})
+        if outcome != "serve" or not p.get("reboot"):
+            return
+        # serving: a request meets a dead link, the device comes back in the bootloader (power cycle), the
+        # next request's ensure_connection runs the bring-up again in this same process
+        from comm.protocol import HSM2ProtocolInterrupt
+        self.crash.now = 1
+        self.crash.count = {}
+        req = {"version": 5, "command": "getPubKey", "keyId": "m/44'/0'/0'/0/0"}
+        world.reset_counters()
+        world.faults = {0: ("write",)}
+        self.crash.point, armed = None, self.crash.point
+        try:
+            proto.handle_request(dict(req))
+        except BaseException:   # noqa
+            pass
+        self.crash.point = armed
+        world.faults = {}
+        d.mode = MODE_BOOT
+        d.exit_modes = [MODE_SIGNER]
+        self.crash.at("reboot")
+        try:
+            proto.handle_request(dict(req))
+            outcome = "serve"
+        except HSM2ProtocolInterrupt:
+            outcome = "stop"
         except BaseException:   # noqa
             outcome = "stop"
         self.crash.at("ending")
@@ -265,10 +297,12 @@ class History:
             return self.pin_id(s)
         return 102
 
-    def lifetime(self, force, newpin_answer, fs_fault=None, crash=None, retries=3):
+    def lifetime(self, force, newpin_answer, fs_fault=None, crash=None, retries=3, start_mode="boot",
+                 reboot=False, crash_phase=0):
         self.lives += 1
         plan = {"plat": self.plat, "force": force, "newpin_answer": newpin_answer, "fs_fault": fs_fault,
-                "crash": crash, "pin_path": self.pin_path, "journal": self.journal,
+                "crash": crash, "start_mode": start_mode, "reboot": reboot, "crash_phase": crash_phase,
+                "pin_path": self.pin_path, "journal": self.journal,
                 "devpin": self.devpin.hex(), "seed": "%s:%d" % (self.seed, self.lives), "retries": retries}
         evs, crashed = run_lifetime(plan)
         j = read_file(self.journal)
